@@ -77,6 +77,8 @@ int __real_signalfd(int, const sigset_t *, int);
 int __real_open(const char *, int, ...);
 pid_t __real_getpid(void);
 uint32_t __real_evutil_weakrand_seed_(void *, uint32_t);
+uint32_t __real_arc4random(void);
+void __real_arc4random_buf(void *, size_t);
 }
 
 namespace vk {
@@ -92,6 +94,7 @@ static int fault_pm[S_NSITES];
 static bool active = false;
 
 Hooks hooks;
+unsigned rng_byte_mask = 0xff;
 uint64_t wait_cap = 20000;
 NetCfg net;
 std::function<ConnectDecision(const sockaddr *, socklen_t)> connect_policy;
@@ -808,6 +811,20 @@ uint32_t __wrap_evutil_weakrand_seed_(void *state, uint32_t seed) {
 	return __real_evutil_weakrand_seed_(state, seed);
 }
 
+// secure RNG (DNS transaction ids, 0x20 case bits): a dedicated PRNG stream of the run. rng_byte_mask < 0xff narrows every
+// byte (few distinct transaction ids), so that the "id already in flight" path is exercised within a handful of requests.
+uint32_t __wrap_arc4random(void) {
+	if (!active) return __real_arc4random();
+	uint32_t v = (uint32_t)G.lib.next();
+	unsigned m = rng_byte_mask;
+	return v & (m | (m << 8) | (m << 16) | (m << 24));
+}
+void __wrap_arc4random_buf(void *buf, size_t n) {
+	if (!active) { __real_arc4random_buf(buf, n); return; }
+	unsigned char *b = (unsigned char *)buf;
+	for (size_t i = 0; i < n; i++) b[i] = (unsigned char)(G.lib.next() >> 32) & rng_byte_mask;
+}
+
 // ---- epoll
 int __wrap_epoll_create1(int flags) {
 	int fd = __real_epoll_create1(flags);
@@ -1473,6 +1490,7 @@ void vk_run_begin(void) {
 	for (int i = 0; i < S_NSITES; i++) fault_pm[i] = 0;
 	hooks = Hooks();
 	wait_cap = 20000;
+	rng_byte_mask = 0xff;
 	net = NetCfg();
 	connect_policy = nullptr;
 	tap_stream = nullptr;
